@@ -36,6 +36,13 @@ def edge_facts(b):
                 out.append((bi, d, ("discr", cond, v)))
             if other not in [d for _, d in targets]:
                 out.append((bi, other, ("discr", cond, ("not", tuple(v for v, _ in targets)))))
+            # a `match` on an integer itself (`match n { 0 => .., _ => .. }`) is a comparison with the literal
+            c0 = strip_casts(cond)
+            if not (isinstance(c0, tuple) and c0 and c0[0] == "discr"):
+                for v, d in targets:
+                    out.append((bi, d, ("cmp", "Eq", cond, ("const", v))))
+                if len(targets) == 1 and other != targets[0][1]:
+                    out.append((bi, other, ("cmp", "Ne", cond, ("const", targets[0][0]))))
     return out
 
 
@@ -60,6 +67,116 @@ def bool_facts(cond, truth):
 
 
 VARIANT_TESTS = {"is_some": 1, "is_none": 0, "is_ok": 0, "is_err": 1}
+
+
+def linear(t, sign=1, out=None):
+    """A term as a linear combination {leaf term: coefficient, (): constant} over Add / Sub (unsigned arithmetic read as integers:
+    valid for comparing two guards that are both evaluated without overflow)."""
+    if out is None:
+        out = {}
+    t = strip_casts(t)
+    if isinstance(t, tuple) and t and t[0] == "bin" and t[1] in ("Add", "Sub"):
+        linear(t[2], sign, out)
+        linear(t[3], sign if t[1] == "Add" else -sign, out)
+    elif isinstance(t, tuple) and t and t[0] == "const" and isinstance(t[1], int):
+        out[()] = out.get((), 0) + sign * t[1]
+    else:
+        key = t[:2] if isinstance(t, tuple) and t and t[0] == "param" else t
+        out[key] = out.get(key, 0) + sign
+    return {k: v for k, v in out.items() if v != 0}
+
+
+def fact_linear_le(facts, lhs, rhs):
+    """Do the facts contain `lhs <= rhs` up to moving terms across the comparison?  (`w <= 64 - o` for `o + w <= 64`, `a < b + 1`..)
+    Compared as lhs - rhs <= 0 in normal form."""
+    want = linear(("bin", "Sub", lhs, rhs))
+    for f in facts:
+        if f[0] != "cmp":
+            continue
+        op, a, b = f[1], f[2], f[3]
+        if op in ("Ge", "Gt"):
+            op, a, b = {"Ge": "Le", "Gt": "Lt"}[op], b, a
+        if op == "Le":
+            have = linear(("bin", "Sub", a, b))
+        elif op == "Lt":
+            have = linear(("bin", "Add", ("bin", "Sub", a, b), ("const", 1)))
+        else:
+            continue
+        if have == want:
+            return True
+    return False
+
+
+def canon(F, t, depth=4, self_ty=None):
+    """A term with crate-local calls to straight-line functions replaced by what they return (parameters substituted), trait-method
+    calls resolved through the receiver's type where it is known and otherwise named as written, references and casts dropped: two
+    spellings of the same quantity (`self.count_zeros()` and `Complement::count_ones(self)`, both `len - count_ones`) get the
+    same canonical term."""
+    if not isinstance(t, tuple) or not t:
+        return t
+    if not isinstance(t[0], str):
+        return tuple(canon(F, x, depth, self_ty) for x in t)
+    k = t[0]
+    if k in ("ref", "deref", "cast"):
+        return canon(F, t[1], depth, self_ty)
+    if k == "call":
+        name = t[1]
+        written = t[4] if len(t) > 4 and isinstance(t[4], str) else name
+        ty = (t[3][0] if len(t) > 3 and t[3] else None) or self_ty
+        if ty == "Self":
+            ty = self_ty
+        # a call written against the trait (inside a provided method, or unresolved): pick the implementation for the receiver's type
+        if name == written and "::" in written and ty:
+            tr, meth = written.rsplit("::", 1)
+            for im in F.impls_of(tr):
+                if (im["self_ty"].get("def") or im["self_ty"].get("s")) == ty.split("<")[0]:
+                    for it in im["items"]:
+                        if it["name"] == meth and F.has_body(it["def"]):
+                            name = it["def"]
+        if depth > 0 and F.has_body(name):
+            cb = F.body(name)
+            if len(cb.reachable()) <= 4 and not cb.loop_blocks() and not any(tt["callee"].get("unsafe") for _, tt in cb.calls()):
+                rt = cb.term_of_local(0)
+                if isinstance(rt, tuple) and rt and rt[0] not in ("var", "unknown", "deep"):
+                    from serfmt import subst_params
+                    inner_self = ty if name == written else None       # a provided method: nested trait calls are on the same Self
+                    return canon(F, subst_params(rt, list(t[2])), depth - 1, inner_self or self_ty)
+        return ("call", written, tuple(canon(F, a, depth, self_ty) for a in t[2]))
+    if k == "param":
+        return ("param", t[1])
+    if k == "const":
+        return ("const", t[1])
+    if k == "adt":
+        return t[:4] + (tuple(canon(F, x, depth, self_ty) for x in t[4]),)
+    return tuple(canon(F, x, depth, self_ty) if isinstance(x, tuple) else x for x in t)
+
+
+def untested_params(b, block, terms):
+    """True if some term is built only from parameters of the function and constants (through arithmetic, casts, crate helpers) and NO
+    fact that holds at `block` mentions any of those parameters: the value is whatever the caller passed, and nothing on the way
+    looked at it.  (A positive identification: for an argument-checked API there is then a caller value -- 0 or usize::MAX -- that
+    the code does not survive.  A value that *was* looked at, even through something derived from it, may be bounded by an
+    invariant the rules cannot see; that is left undecided.)"""
+    facts = facts_at(b, block)
+    mentioned = set()
+    for f in facts:
+        for part in f[1:]:
+            if isinstance(part, tuple):
+                for x in subterms(part):
+                    if isinstance(x, tuple) and x and x[0] == "param":
+                        mentioned.add(x[1])
+    for t in terms:
+        ps, other = set(), False
+        for x in subterms(t):
+            if not (isinstance(x, tuple) and x and isinstance(x[0], str)):
+                continue
+            if x[0] == "param":
+                ps.add(x[1])
+            elif x[0] in ("var", "field", "index", "deref") and not any(isinstance(y, tuple) and y and y[0] == "param" for y in subterms(x)):
+                other = True
+        if ps and not (ps & mentioned) and all(b.local_ty(i + 1) in ("usize", "u64", "u32", "u16", "u8") for i in ps):
+            return True
+    return False
 
 
 def fact_add_fits(facts, a, b):
@@ -543,6 +660,7 @@ def reach_on_error_path(b, start):
     it -- takes only the error / Break edge. Everything else is plain reachability. Used to ask "can a refusal still reach the
     success value?" when the refusal sits in a helper that was inlined (its `return Err(..)` continues into the caller's `?`)."""
     err = set()
+    is_none = set()        # error locals that hold Option::None (discriminant 0) rather than Err / Break (discriminant 1)
     seen, stack = set(), [start]
     while stack:
         x = stack.pop()
@@ -558,10 +676,12 @@ def reach_on_error_path(b, start):
             l = st["lhs"]["l"]
             if rv["r"] == "agg" and rv.get("agg") == "adt" and rv.get("vname") in ("Err", "None") and rv.get("def") in ("std::result::Result", "std::option::Option"):
                 err.add(l)
+                (is_none.add if rv.get("vname") == "None" else is_none.discard)(l)
             elif rv["r"] == "use":
                 q = rv["o"].get("m") or rv["o"].get("c")
                 if q is not None and q["l"] in err and all(isinstance(e, dict) and ("down" in e or "f" in e) for e in q["p"]):
                     err.add(l)
+                    (is_none.add if q["l"] in is_none and not q["p"] else is_none.discard)(l)
                 elif l in err:
                     err.discard(l)
             elif rv["r"] == "discr":
@@ -584,6 +704,9 @@ def reach_on_error_path(b, start):
                 one = [d for v, d in t["targets"] if int(v) == 1]
                 # Result::Err and ControlFlow::Break have discriminant 1; Option::None has 0
                 zero = [d for v, d in t["targets"] if int(v) == 0]
-                nxt = one or ([t["otherwise"]] if not zero else [t["otherwise"]])
+                if src in is_none:
+                    nxt = zero or [t["otherwise"]]
+                else:
+                    nxt = one or ([t["otherwise"]] if not zero else [t["otherwise"]])
         stack.extend(nxt)
     return seen
